@@ -60,7 +60,10 @@ func (x *run) prepareHost(rs *repState, variant int) error {
 	_ = w("untracked.log", "not tracked\n")
 	for _, kv := range [][2]string{{"core.hooksPath", "no-hooks"}, {"host.setting", "keep me"}, {"branch.feature.description", "a topic"}, {"alias.st", "status"},
 		// sections that merely look like git-bug's
-		{"git-bug-tools.setting", "not git-bug's"}, {"gitbug.setting", "neither"}} {
+		{"git-bug-tools.setting", "not git-bug's"}, {"gitbug.setting", "neither"},
+		// the committer's own identity, in a form git itself cleans up before it writes a commit
+		{"user.name", []string{"Host Committer", "Jane Doe <jane.doe@corp.example.com>"}[variant%2]},
+		{"user.email", []string{"host@example.org", "<jane.doe@corp.example.com>"}[variant%2]}} {
 		if _, err := gitCmd(d, "config", kv[0], kv[1]); err != nil {
 			return err
 		}
